@@ -2,7 +2,7 @@
    This file contains only the property theorems; each is closed by an exact/apply of a
    lemma proved under GraphAlg/ and followed by Print Assumptions (+ non-vacuity Examples). *)
 From Coq Require Import List NArith Permutation.
-From HV Require Import GraphAlg.Model GraphAlg.PUf GraphAlg.PTopo GraphAlg.PSm GraphAlg.Check GraphAlg.PCheck.
+From HV Require Import GraphAlg.Model GraphAlg.PUf GraphAlg.PTopo GraphAlg.PSm GraphAlg.PSmCyc GraphAlg.Check GraphAlg.PCheck.
 Import ListNotations.
 Open Scope N_scope.
 
@@ -125,15 +125,36 @@ Theorem C17_sm_new_total : forall keys np en,
 Proof. exact sm_new_total. Qed.
 Print Assumptions C17_sm_new_total.
 
-(* FULL STATEMENTS of the try_merge clauses of C17 (kept visible; only parts are proved below):
+(* group-order lemma: a quotient edge a -> b puts the whole index range of group a before that of b *)
+Theorem C17_sm_group_order : forall ks np en s f a b,
+  SMInv ks np en s f -> qedge f np ks a b ->
+  exists ia la ib lb,
+    alookup a (sm_idx s) = Some ia /\ alookup a (sm_len s) = Some la /\
+    alookup b (sm_idx s) = Some ib /\ alookup b (sm_len s) = Some lb /\
+    (1 <= la)%nat /\ (1 <= lb)%nat /\ (ia + la <= ib)%nat.
+Proof. intros ks np en s f a b I. exact (qedge_ranges ks np en s f I a b). Qed.
+Print Assumptions C17_sm_group_order.
+
+(* EXACTNESS of try_merge's refusals (both directions; the <- direction contains the completeness
+   of the window-pruned DFS: no path from v to u leaves the window, and the worklist closure
+   finds every one), with no panic and no out-of-fuel on the refusing paths *)
+Theorem C17_sm_try_merge_exact : forall ks np en s f u v,
+  SMInv ks np en s f -> In u ks -> In v ks ->
+  ((exists s', sm_try_merge s u v = ROk (s', false)) <->
+   f u <> f v /\ (enemy_conflict f en u v \/ would_cycle f np ks (f u) (f v))).
+Proof. intros ks np en s f u v I. exact (sm_try_merge_exact ks np en s f I u v). Qed.
+Print Assumptions C17_sm_try_merge_exact.
+
+(* a refused cycle leaves the abstract state and the invariant unchanged *)
+Theorem C17_sm_try_merge_cycle_refused : forall ks np en s f u0 v0,
+  SMInv ks np en s f -> In u0 ks -> In v0 ks -> f u0 <> f v0 -> would_cycle f np ks (f u0) (f v0) ->
+  exists s', sm_try_merge s u0 v0 = ROk (s', false) /\ SMInv ks np en s' f.
+Proof. intros ks np en s f u0 v0 I. exact (sm_try_merge_cycle_refused ks np en s f I u0 v0). Qed.
+Print Assumptions C17_sm_try_merge_cycle_refused.
+
+(* FULL STATEMENT of the remaining try_merge clause of C17 (kept visible):
      preservation:  SMInv s f -> sm_try_merge s u v = ROk (s', b) -> exists f', SMInv s' f'
-                    (and never RPanic / RFuel on keys);
-     exactness:     sm_try_merge s u v = ROk (s', false)
-                      <-> f u <> f v /\ (enemy_conflict f en u v \/ would_cycle f np ks (f u) (f v)). *)
-Definition C17_sm_try_merge_exact_stmt : Prop :=
-  forall ks np en s f u v, SMInv ks np en s f -> In u ks -> In v ks ->
-    ((exists s', sm_try_merge s u v = ROk (s', false)) <->
-     f u <> f v /\ (enemy_conflict f en u v \/ would_cycle f np ks (f u) (f v))).
+                    (and never RPanic / RFuel on keys). *)
 Definition C17_sm_try_merge_preserves_stmt : Prop :=
   forall ks np en s f u v, SMInv ks np en s f -> In u ks -> In v ks ->
     exists s' b f', sm_try_merge s u v = ROk (s', b) /\ SMInv ks np en s' f'.
@@ -141,10 +162,7 @@ Definition C17_sm_try_merge_preserves_stmt : Prop :=
 (* PROVED PART (soundness of refusals + the unmerged branches preserve the invariant):
    a false answer implies distinct groups and an enemy conflict or a cycle through the merged
    group, and leaves the abstract state unchanged.
-   MISSING: (a) completeness of the window-pruned DFS (would_cycle -> false), (b) that a successful
-   merge re-establishes SMInv (window re-sort, idx/len/preds/enemies bookkeeping) and never panics.
-   Both are covered only by the correspondence check (SMInv_b and the independent refusal oracle
-   evaluated on every implementation output). *)
+   (kept under its round-1 name; the converse is C17_sm_try_merge_exact above) *)
 Theorem C17_sm_try_merge_false_sound_partial : forall ks np en s f u0 v0 s',
   SMInv ks np en s f ->
   sm_try_merge s u0 v0 = ROk (s', false) ->
